@@ -165,6 +165,7 @@ class Builder:
         self.excluded = []   # layer names to be excluded from the search
         self.opts = opts or {}
         self.features = set()
+        self.traits = set()   # hazard constructs (known-finding mechanisms) actually present
 
     def fresh(self, p='t'):
         self.n += 1
@@ -398,11 +399,12 @@ class Builder:
         cb = self.shapes[b][0]
         # a residual sum with a channel-concat operand cannot share one masker (known finding
         # pit-add-of-concat): only drawn when explicitly allowed
-        cat_ok = self.origin[t] != 'cat' or self.opts.get('add_of_cat', False)
-        if cb == c and cat_ok and self.rng.random() < 0.7:
+        hz = {'cat': 'add-of-cat', 'fixed': 'add-of-fixed'}.get(self.origin[t])
+        skip_ok = hz is None or hz in self.opts.get('hazards', ())
+        if cb == c and skip_ok and self.rng.random() < 0.7:
             skip = t
-            if self.origin[t] == 'cat':
-                self.features.add('add-of-cat')
+            if hz:
+                self.traits.add(hz)
         else:
             skip = self.same_shape_conv(t, cout=cb, k=1)
             if self.rng.random() < 0.3:
@@ -427,6 +429,12 @@ class Builder:
                 o = self.same_shape_conv(t)
                 o = self.maybe_bn_act(o, 0.3, 0.5)
             elif kind == 'fixed':
+                if self.origin[t] != 'input' and 'excluded-consumer' not in self.opts.get('hazards', ()):
+                    o = self.same_shape_conv(t)
+                    srcs.append(self.maybe_bn_act(o, 0.3, 0.5))
+                    continue
+                if self.origin[t] != 'input':
+                    self.traits.add('excluded-consumer')
                 o = self.same_shape_conv(t, excluded=True)
                 if self.rng.random() < 0.4:
                     o = self.act(o)
@@ -517,6 +525,13 @@ def gen_program(rng, family=None, depth=None, opts=None):
     t = 'x0'
     depth = depth or rng.randint(1, 5)
     first = True
+    if rng.random() < opts.get('p_fixed_stem', 0.0):
+        # an excluded (fixed) first layer: its input width is fixed by the network input, so
+        # excluding it is safe whatever the masks of the searchable layers are
+        o = b.conv('x0', excluded=True, s=1)
+        if o is not None:
+            t = b.maybe_bn_act(o, 0.0, 0.6)
+            b.features.add('fixed-stem')
     for _ in range(depth):
         r = rng.random()
         extra = ('x1',) if two_inputs else ()
@@ -531,16 +546,24 @@ def gen_program(rng, family=None, depth=None, opts=None):
             if b.shapes[t][0] >= 1:
                 # a depthwise conv fed by a channel concat has no features-defining node in its
                 # sharing component (known finding pit-dw-after-concat-no-masker): low weight only
-                t = b.dw_block(t) if b.origin[t] != 'cat' or opts.get('dw_after_cat', False) \
-                    else b.conv_block(t)
+                hz = {'cat': 'dw-after-cat', 'fixed': 'dw-after-fixed'}.get(b.origin[t])
+                if hz is None or hz in opts.get('hazards', ()):
+                    t = b.dw_block(t)
+                    if hz:
+                        b.traits.add(hz)
+                else:
+                    t = b.conv_block(t)
         elif r < 0.86:
             t = b.tcat_block(t)
         elif r < 0.93:
             t = b.pool(t)
-        elif opts.get('allow_fixed', False):
-            # excluded (fixed) layer in the middle of the chain
+        elif 'excluded-consumer' in opts.get('hazards', ()):
+            # excluded (fixed) layer in the middle of the chain: its producer may be pruned
             o = b.conv(t, excluded=True)
-            t = o if o is not None else t
+            if o is not None:
+                if b.origin[t] != 'input':
+                    b.traits.add('excluded-consumer')
+                t = o
         else:
             t = b.conv_block(t)
         first = False
@@ -555,7 +578,7 @@ def gen_program(rng, family=None, depth=None, opts=None):
             b.features.discard('two-inputs')
     t = b.head(t)
     prog = {'family': family, 'inputs': inputs, 'ops': b.ops, 'out': t,
-            'excluded': b.excluded, 'features': sorted(b.features)}
+            'excluded': b.excluded, 'features': sorted(b.features), 'traits': sorted(b.traits)}
     return prog
 
 
@@ -625,4 +648,40 @@ def single_conv_program(K, d, position='middle', cin=2, cout=3, L=None, bias=Tru
         ops.append({'op': 'lin', 'name': 'fc', 'src': 'f', 'out': 'o', 'fin': 3, 'fout': 2,
                     'bias': True})
     return {'family': '1d', 'inputs': [[cin, L]], 'ops': ops, 'out': 'o', 'excluded': [],
-            'features': ['single-conv', position]}
+            'features': ['single-conv', position], 'traits': []}
+
+
+def reuse_program(rng, family='1d', same_size=True):
+    """One searchable conv applied to two network inputs (equal channel count, equal or different
+    spatial size), joined on the time/height axis, followed by a conv, pooling and a classifier."""
+    c = rng.randint(1, 3)
+    co = rng.randint(2, 6)
+    if family == '1d':
+        L0 = rng.randint(6, 12)
+        L1 = L0 if same_size else L0 + rng.randint(1, 5)
+        inputs = [[c, L0], [c, L1]]
+        k = rng.choice([1, 2, 3, 4, 5])
+        conv = {'op': 'conv', 'name': 'shared', 'cin': c, 'cout': co, 'k': k, 'd': rng.choice([1, 2]),
+                's': 1, 'bias': rng.random() < 0.7, 'pad': 'causal', 'dw': False}
+        k2 = {'k': 3, 'pad': 'causal'}
+    else:
+        H0, W = rng.randint(5, 8), rng.randint(5, 8)
+        H1 = H0 if same_size else H0 + rng.randint(1, 4)
+        inputs = [[c, H0, W], [c, H1, W]]
+        conv = {'op': 'conv', 'name': 'shared', 'cin': c, 'cout': co, 'k': 3, 'd': 1, 's': 1,
+                'bias': rng.random() < 0.7, 'pad': 'same', 'dw': False}
+        k2 = {'k': 3, 'pad': 'same'}
+    ops = [dict(conv, src='x0', out='a0'),
+           dict(conv, src='x1', out='a1', reuse=True),
+           {'op': 'act', 'kind': 'relu_f', 'src': 'a0', 'out': 'b0'},
+           {'op': 'act', 'kind': 'relu_f', 'src': 'a1', 'out': 'b1'},
+           {'op': 'cat', 'srcs': ['b0', 'b1'], 'dim': 2, 'out': 'c'},
+           dict({'op': 'conv', 'name': 'post', 'src': 'c', 'out': 'd', 'cin': co,
+                 'cout': rng.randint(2, 5), 'd': 1, 's': 1, 'bias': True, 'dw': False}, **k2),
+           {'op': 'pool', 'kind': 'aavg', 'k': 0, 'name': 'gap', 'src': 'd', 'out': 'e'},
+           {'op': 'flat', 'kind': 'meth', 'src': 'e', 'out': 'f'}]
+    ops.append({'op': 'lin', 'name': 'fc', 'src': 'f', 'out': 'o', 'fin': ops[5]['cout'],
+                'fout': 3, 'bias': True})
+    return {'family': family, 'inputs': inputs, 'ops': ops, 'out': 'o', 'excluded': [],
+            'features': ['reuse', 'reuse-same' if same_size else 'reuse-diffsize', 'tcat'],
+            'traits': []}
